@@ -291,8 +291,10 @@ Section Node.
      m_ents is ghost: the log prefix the snapshot stands for (the model keeps whole logs;
      compaction is invisible to every handler).  After an actual restore the progress tracker
      is rebuilt from the snapshot's ConfState (same voters): votes and Match are reset. *)
+  (* m_reject is ghost too: "the receiver is not in the snapshot's ConfState" (restore refuses such
+     a snapshot before anything else: "should never happen") *)
   Definition handle_snapshot (m : msg) (n : nstate) : nstate * list msg :=
-    if m_index m <=? n_commit n then
+    if (m_index m <=? n_commit n) || m_reject m then
       (n, [reply MsgAppResp (m_from m) (n_term n) (n_commit n) false])
     else if term_at (n_log n) (m_index m) =? m_logterm m then          (* matchTerm: fast-forward commit *)
       match commit_to (n_log n) (n_commit n) (m_index m) with
